@@ -13,6 +13,15 @@ history cases keep the SAME Scaffold objects through several stages - keys taken
 assembly and by (rank, name) in a second assembly holding the same objects, then renamed / re-ranked in place
 (plain assignment, ScaffoldNamer.rename_by_size, ChrNamer.add_chr_prefix) and all of it again - and every
 stage is judged by the oracle on the current names and compared with new objects carrying the same names.
+
+"Of nothing else" includes everything else a Scaffold carries: haplotype, tag, original_name, original_tags and
+rows (how many, how long, of which contigs).  The attribute cases (kind "attrs") give every scaffold of a name
+set its own values of these - one attribute at a time over every assignment of a small value pool to the
+scaffolds (so that the attribute runs against the name order in some assignment whatever its own order is), then
+all at once at random - and demand, for every initial order, the order the oracle derives from rank and name,
+and name_natural_key equal to that of a bare Scaffold(name); families and histories get attributes as well.
+attr = {"haplotype": str|None, "tag": str|None, "original_name": str|None, "original_tags": [str]|None,
+        "rows": [[contig name, length, strand], ...]}   (a missing key = the constructor's default)
 """
 
 import itertools
@@ -67,18 +76,40 @@ def ocmp(a, b):
     return (len(a) > len(b)) - (len(a) < len(b))
 
 
-def sort_by_name(names):
-    asm = Assembly("a", scaffolds=[Scaffold(n) for n in names])
+def dress(sc, attr):
+    """give a Scaffold the attribute values of `attr` (see the module docstring)"""
+    if not attr:
+        return sc
+    if "haplotype" in attr:
+        sc.haplotype = attr["haplotype"]
+    if "tag" in attr:
+        sc.tag = attr["tag"]
+    if "original_name" in attr:
+        sc.original_name = attr["original_name"]
+    if "original_tags" in attr:
+        sc.original_tags = None if attr["original_tags"] is None else set(attr["original_tags"])
+    if "rows" in attr:
+        sc.rows = [Fragment(nm, 1, ln, st) for nm, ln, st in attr["rows"]]
+    return sc
+
+
+def sort_by_name(names, attrs=None):
+    asm = Assembly("a", scaffolds=[dress(Scaffold(n), a) for n, a in zip(names, attrs or [None] * len(names))])
     given = list(asm.scaffolds)
     out = asm.scaffolds_sorted_by_name()
     return given, out
 
 
-def smart_sort(names, ranks):
-    asm = Assembly("a", scaffolds=[Scaffold(n, rank=r) for n, r in zip(names, ranks)])
+def smart_sort(names, ranks, attrs=None):
+    asm = Assembly("a", scaffolds=[dress(Scaffold(n, rank=r), a) for n, r, a in zip(names, ranks, attrs or [None] * len(names))])
     given = list(asm.scaffolds)
     asm.smart_sort_scaffolds()
     return given, list(asm.scaffolds)
+
+
+def brief(attrs):
+    """the attribute values that differ from the defaults, for messages"""
+    return [{k: v for k, v in (a or {}).items() if v not in (None, [])} for a in attrs]
 
 
 def judge(given, out, what):
@@ -96,42 +127,55 @@ def judge(given, out, what):
     return None
 
 
-def check_sort(names, ranks, col, inp, count=True):
+def check_sort(names, ranks, col, inp, count=True, attrs=None):
     """both entry points on one initial order; returns the key sequences for the consistency check"""
     res = []
+    worn = f", the scaffolds carrying {brief(attrs)}: the order must depend on rank and name only" if attrs else ""
     try:
-        given, out = sort_by_name(names)
+        given, out = sort_by_name(names, attrs)
     except Exception as e:
-        col.fail(f"scaffolds_sorted_by_name({names}) raised {type(e).__name__}: {e}", inp)
+        col.fail(f"scaffolds_sorted_by_name({names}) raised {type(e).__name__}: {e}{worn}", inp)
         return None
     msg = judge(given, out, "scaffolds_sorted_by_name")
     if msg:
-        col.fail(f"{msg} for initial order {names}", inp)
+        col.fail(f"{msg} for initial order {names}{worn}", inp)
         return None
     res.append([tuple(okey(s.name)) for s in out])
     rk = ranks or [0] * len(names)
     try:
-        given, out = smart_sort(names, rk)
+        given, out = smart_sort(names, rk, attrs)
     except Exception as e:
-        col.fail(f"smart_sort_scaffolds({names}, ranks {rk}) raised {type(e).__name__}: {e}", inp)
+        col.fail(f"smart_sort_scaffolds({names}, ranks {rk}) raised {type(e).__name__}: {e}{worn}", inp)
         return None
     msg = judge(given, out, "smart_sort_scaffolds")
     if msg:
-        col.fail(f"{msg} for initial order {names} ranks {rk}", inp)
+        col.fail(f"{msg} for initial order {names} ranks {rk}{worn}", inp)
         return None
     res.append([(s.rank, tuple(okey(s.name))) for s in out])
+    if attrs:
+        for sc in given:
+            try:
+                k, bare = Assembly.name_natural_key(sc), Assembly.name_natural_key(Scaffold(sc.name))
+            except Exception as e:
+                col.fail(f"name_natural_key raised {type(e).__name__}: {e} for '{sc.name}'{worn}", inp)
+                return None
+            if k != bare:
+                col.fail(f"name_natural_key of '{sc.name}' is {k!r}, of a bare scaffold of that name {bare!r}{worn}", inp)
+                return None
     return res
 
 
-def check_set(names, ranks, col):
+def check_set(names, ranks, col, attrs=None):
     """all permutations of the initial order (<= 5 names): same order up to equal keys"""
     inp = {"kind": "set", "names": list(names), "ranks": list(ranks) if ranks else None}
+    if attrs:
+        inp = {**inp, "kind": "attrs", "attrs": attrs}
     first = None
     idx = list(range(len(names)))
     for perm in itertools.permutations(idx):
         nm = [names[i] for i in perm]
         rk = [ranks[i] for i in perm] if ranks else None
-        res = check_sort(nm, rk, col, inp)
+        res = check_sort(nm, rk, col, inp, attrs=[attrs[i] for i in perm] if attrs else None)
         col.evaluations += 2
         if res is None:
             return
@@ -250,6 +294,86 @@ def check_family(exp, rng, col, inp, shuffles=3):
                 return
 
 
+# ---------------------------------------------------------------------------------------------
+# attributes: everything a Scaffold carries besides name and rank
+
+ATTR_POOLS = {
+    "haplotype": [None, "HAP1", "HAP2", "", "hap10"],
+    "tag": [None, "Painted", "Haplotig", "Unloc", "Contaminant"],
+    "original_name": [None, "Scaffold_10", "Scaffold_2", "zz", "1"],
+    "original_tags": [None, ["Painted"], ["Haplotig", "Painted"], [], ["Unloc", "Painted", "HAP2"]],
+    "rows": [[], [["ctg_9", 5000, 1]], [["ctg_1", 100, -1], ["ctg_2", 50, 1]], [["a", 1, 1]], [["zz", 10**9, -1], ["zz", 7, 1], ["b", 7, 1]]],
+}
+ATTR_NAME_SETS = [
+    (["SUPER_1", "SUPER_2", "SUPER_10"], [1, 1, 1]),
+    (["SUPER_2", "SUPER_2_unloc_1", "SUPER_3"], [1, 1, 1]),
+    (["H_1", "H_2", "H_11"], [3, 3, 3]),
+    (["I", "II", "IV"], None),
+    (["SUPER_10", "SUPER_9", "scaffold_1"], [1, 1, 2]),
+    (["SUPER_1", "SUPER_1_unloc_1", "SUPER_2", "SUPER_10"], [1, 1, 1, 1]),
+    (["chr9", "chr10", "chrX", "chr09"], [0, 0, 0, 0]),
+    (["S2", "S10", "S1", "S1"], [2, 2, 1, 2]),
+]
+
+
+def default_attr():
+    return {k: None if k != "rows" else [] for k in ATTR_POOLS}
+
+
+def attr_assignments(n, quick):
+    """one attribute at a time: every assignment of the first 3 pool values (quick, four names: 2; thorough, three names: 4)
+    to n scaffolds"""
+    for key, pool in ATTR_POOLS.items():
+        values = pool[: 2 if quick and n > 3 else 3 if quick or n > 3 else 4]
+        for combo in itertools.product(values, repeat=n):
+            if len({repr(v) for v in combo}) > 1:
+                yield [{key: v} for v in combo]
+
+
+def random_attr(rng):
+    return {key: rng.choice(pool) for key, pool in ATTR_POOLS.items()}
+
+
+def cycled_attr(i, k):
+    """all five attributes, each cycling through its pool with its own period (2..5, shifted by k)"""
+    out = {}
+    for j, (key, pool) in enumerate(ATTR_POOLS.items()):
+        period = 2 + (j + k) % 4
+        out[key] = pool[(i + k) % period]
+    return out
+
+
+def check_family_attrs(prefix, n_max, k, rng, col, inp):
+    """a family in its written-out order, the scaffolds at consecutive positions of it carrying cycling attribute values"""
+    exp = family(prefix, n_max)
+    attr_of = {nm: cycled_attr(i, k) for i, nm in enumerate(exp)}
+    for shuffle in range(3):
+        order = list(exp)
+        if shuffle == 0:
+            order.reverse()
+        else:
+            rng.shuffle(order)
+        attrs = [attr_of[nm] for nm in order]
+        for fn in ("name", "smart"):
+            col.evaluations += 1
+            try:
+                _, out = sort_by_name(order, attrs) if fn == "name" else smart_sort(order, [1] * len(order), attrs)
+            except Exception as e:
+                col.fail(f"sorting the family {exp[:3]}.. ({len(exp)} names, scaffolds carrying attributes) raised {type(e).__name__}: {e}", inp)
+                return
+            got = [s.name for s in out]
+            if got != exp:
+                at = next(i for i, (g, w) in enumerate(zip(got, exp)) if g != w)
+                worn = {nm: {a: v for a, v in attr_of[nm].items() if v not in (None, [])} for nm in got[max(0, at - 1): at + 3]}
+                col.fail(
+                    f"{'scaffolds_sorted_by_name' if fn == 'name' else 'smart_sort_scaffolds (equal ranks)'}: family order wrong at position {at}: got "
+                    f"{got[max(0, at - 1): at + 3]}, expected {exp[max(0, at - 1): at + 3]}; the scaffolds differ in attributes other than name and rank, "
+                    f"which must not count: {worn}",
+                    inp,
+                )
+                return
+
+
 NEMATODE = ["I", "II", "III", "IV", "V", "X"]
 
 
@@ -292,6 +416,7 @@ def check_nematode(prefix, suffix, rng, col):
 #   {"by_size": [length, ...]}          each object gets one contig of that length, then
 #                                       ScaffoldNamer.rename_by_size hands the names out largest first
 #   {"chr_prefix": "SUPER_"}            ChrNamer(prefix).add_chr_prefix on every object
+#   {"attrs": [attr, ...]}              haplotype / tag / original_name / original_tags / rows assigned in place
 
 
 def fresh_like(scaffolds):
@@ -305,6 +430,9 @@ def enter_stage(objs, stage):
         for o, nm, rk in zip(objs, stage["names"], stage["ranks"]):
             o.name = nm
             o.rank = rk
+    elif "attrs" in stage:
+        for o, a in zip(objs, stage["attrs"]):
+            dress(o, a)
     elif "by_size" in stage:
         from tola.assembly.build_utils import ScaffoldNamer
 
@@ -400,6 +528,13 @@ def history_cases(quick, rng, names):
     # new names altogether: numbers given out again in another order, prefixes added, numerals for digits
     yield [{"names": [f"scaffold_{n}" for n in (1, 2, 3)], "ranks": [0] * 3}, {"names": [f"scaffold_{n}" for n in (30, 20, 10)], "ranks": [0] * 3}]
     yield [{"names": ["1", "2", "3", "4"], "ranks": [1] * 4}, {"names": ["IV", "III", "II", "I"], "ranks": [1] * 4}, {"names": ["chr4", "chr03", "chr20", "chr1"], "ranks": [1] * 4}]
+    # attributes assigned in place between two sorts, names and ranks as they were; then taken away again
+    for k, (base, ranks) in enumerate(ATTR_NAME_SETS):
+        n = len(base)
+        ranks = ranks or [0] * n
+        first = {"names": base[::-1] if k % 2 else base, "ranks": ranks[::-1] if k % 2 else ranks}
+        yield [first, {"attrs": [cycled_attr(n - i, k) for i in range(n)]}, {"attrs": [default_attr() for _ in range(n)]}]
+        yield [first, {"attrs": [cycled_attr(i, k + 1) for i in range(n)]}, {"attrs": [cycled_attr(i + 1, k + 2) for i in range(n)]}, {"chr_prefix": "SUPER_"}]
     pool = INTERESTING + names[:600]
     for _ in range(60 if quick else 1500):
         n = rng.randint(2, 6)
@@ -452,6 +587,14 @@ def replay(inp):
             check_set(names, inp.get("ranks"), col)
         else:
             check_sort(names, inp.get("ranks"), col, inp)
+    elif inp["kind"] == "attrs":
+        names = inp["names"]
+        if len(names) <= 5:
+            check_set(names, inp.get("ranks"), col, attrs=inp["attrs"])
+        else:
+            check_sort(names, inp.get("ranks"), col, inp, attrs=inp["attrs"])
+    elif inp["kind"] == "family-attrs":
+        check_family_attrs(inp["prefix"], inp["n_max"], inp["cycle"], rng, col, inp)
     elif inp["kind"] == "family":
         check_family(family(inp["prefix"], inp["n_max"], inp["pad"], sep=inp["sep"]), rng, col, inp)
     elif inp["kind"] == "nematode":
@@ -463,6 +606,8 @@ def replay(inp):
         check_history(inp["stages"], col, inp)
     return col.failures[0]["message"] if col.failures else None
 
+
+PREFIXED = [f"{p}{n}{u}" for p in ("SUPER_", "H_", "chr") for n in (1, 2, 3, 9, 10, 11, 20) for u in ("", "_unloc_1", "_unloc_2", "_unloc_10")]
 
 INTERESTING = [
     "S1", "S01", "S001", "S2", "S10", "S_1", "SI", "SII", "SIII", "SIV", "SV", "SX", "S0", "S00", "S", "I", "1", "II", "2",
@@ -485,7 +630,11 @@ def run(tier, seed, **opts):
         "(4) histories: the same <= 6 Scaffold objects in two assemblies are keyed and sorted, renamed / re-ranked in place "
         "(every reassignment of 3-name sets, ScaffoldNamer.rename_by_size, ChrNamer.add_chr_prefix, random renames), keyed and "
         "sorted again, judged on the current names and against new objects with the same names; (5) consecutive numbers of "
-        "15 to 310 digits behind several stems, with unlocs and zero-padded twins, under all permutations; "
+        "15 to 310 digits behind several stems, with unlocs and zero-padded twins, under all permutations; (6) scaffolds that "
+        "differ in haplotype / tag / original_name / original_tags / rows as well: every assignment of 3-4 values of one attribute "
+        "to the scaffolds of 3-4 name sets x all initial orders, all attributes at random on multisets of <= 5 and lists of <= 30 "
+        "names, families with cycling attribute values, attributes assigned in place between sorts (histories): the order is the "
+        "oracle's order of (rank, name) and name_natural_key that of a bare scaffold of the name; "
         "non-trivial = distinct name multisets / pairs sorted"
     )
     # (1) exhaustive small alphabet
@@ -578,6 +727,43 @@ def run(tier, seed, **opts):
         check_sort(nm, rk, col, inp)
         col.evaluations += 2
         col.distinct.add((tuple(nm), tuple(rk)))
+    # (6) attributes other than name and rank
+    n_attr = 0
+    for k, (base, ranks) in enumerate(ATTR_NAME_SETS):
+        for attrs in attr_assignments(len(base), quick):
+            if col.full:
+                break
+            check_set(base, ranks, col, attrs=attrs)
+            n_attr += 1
+            col.distinct.add(("attrs", tuple(base), repr(attrs)))
+            if n_attr == 5:
+                col.samples.append({"kind": "attrs", "names": base, "ranks": ranks, "attrs": attrs})
+    for k in range(100 if quick else 4000):
+        if col.full:
+            break
+        nm = [rng.choice(INTERESTING + PREFIXED) for _ in range(rng.randint(2, 4 if quick else 5))]
+        rk = [rng.choice((0, 1, 1, 2, 3)) for _ in nm] if k % 3 else None
+        attrs = [random_attr(rng) for _ in nm]
+        check_set(nm, rk, col, attrs=attrs)
+        n_attr += 1
+        col.distinct.add(("attrs", tuple(nm), repr(attrs)))
+    for k in range(20 if quick else 300):  # longer lists, one initial order
+        if col.full:
+            break
+        nm = [rng.choice(INTERESTING + PREFIXED + names[:600]) for _ in range(rng.randint(6, 30))]
+        rk = [rng.choice((0, 1, 2, 3)) for _ in nm]
+        attrs = [random_attr(rng) for _ in nm]
+        check_sort(nm, rk, col, {"kind": "attrs", "names": nm, "ranks": rk, "attrs": attrs}, attrs=attrs)
+        col.evaluations += 2
+        n_attr += 1
+        col.distinct.add(("attrs", tuple(nm), repr(attrs)))
+    for k, prefix in enumerate(PREFIXES[:4] if quick else PREFIXES):
+        if col.full:
+            break
+        inp = {"kind": "family-attrs", "prefix": prefix, "n_max": 30 if quick else 120, "cycle": k}
+        check_family_attrs(prefix, inp["n_max"], k, rng, col, inp)
+        n_attr += 1
+        col.distinct.add(("family-attrs", prefix, k))
     # (5) digit runs of 15 and more digits
     for chosen, ranks in long_number_sets(rng, quick):
         if col.full:
@@ -599,6 +785,6 @@ def run(tier, seed, **opts):
         bounds=f"all {len(names)} names of length <= {max_len} over {len(SMALL_ALPHABET)} characters; all pairs of length <= {pair_len}"
         + ("" if quick else " (length-4 pairs: every 7th)")
         + f"; {n_sets} multisets of <= 5 names x all permutations; {len(PREFIXES) * 3} families up to n = 120; 18 nematode sets; "
-        f"{n_hist} histories of 2-4 stages on the same <= 6 scaffold objects",
+        f"{n_hist} histories of 2-4 stages on the same <= 6 scaffold objects; {n_attr} name sets / lists / families with attributes other than name and rank",
         exhaustive=True,
     )
